@@ -10,10 +10,10 @@ NOTE_BND = "nothing proved; trusted: the independent oracles in bounded/ (writte
 CHECKS = {
     "C01": ("other", "Bounded: every tree returned by solve() over a grid of grammars/constraints/settings is checked closed, grammar-valid, in the language and satisfying the constraint by independent oracles. Proved (supporting only): call shape of the elimination chain and fast path, cached open-flag invariant of DerivationTree through __init__/is_open/replace_path, list_del. The elimination chain itself is not proved.", NOTE_MIX, MIX, "6/C01"),
     "C02": ("other", "Proved on the AST: every dispatch-chain element on the solve path accepts the arguments it is called with (no TypeError instead of Z3 fallback). Bounded: exceptions escaping solve() and stickiness of StopIteration/TimeoutError over call histories.", NOTE_MIX, MIX, "6/C02"),
-    "C03": ("other", "Proved: trie key encoding/decoding incl. round-trip and prefix lemmas, Kleene all/any, call shape of the evaluator chains. Bounded: evaluate()/check() == independent reference semantics on enumerated closed trees (both strategies reached).", NOTE_MIX, MIX, "6/C03"),
+    "C03": ("other", "Proved: trie key encoding/decoding incl. round-trip and prefix lemmas, Kleene all/any, the verdict combination at the end of evaluate_quantified_formula, the semantic-predicate branch of evaluate_predicates_action (quantifier-elimination strategy: FALSE is never mistaken for not-ready), SMT atoms with unassigned variables / open substitutions are UNKNOWN, call shape of the evaluator chains. Bounded: evaluate()/check() == independent reference semantics on enumerated closed trees (both strategies reached).", NOTE_MIX, MIX, "6/C03"),
     "C04": ("other", "Proved for all paths: before/after/inside/direct_child/same_position/different_position against the document-order definition, plus lemmas that the definition is a strict order total on prefix-incomparable nodes. nth/consecutive/level: bounded exhaustive small-scope check against independent definitions, not proved.", NOTE_MIX, MIX, "6/C04"),
     "C05": ("other", "Proved: 17 fast-path constructors (not/and/or/=/</<=/>/>=/-/mod/str.len/str.++/str.at/str.substr/str.to_code) equal the solver's own operators and never raise; operator binding: each of the 36 case functions of the dispatch chain answers only (for 31 of them: exactly) for the z3 head symbol its constructor was verified against, from the real guard text over an assumed model of z3's term inspection; call shape of the evaluator chain. Bounded: regex constructors, div/pow/str.to.int, is_valid and evaluate end-to-end against Z3.", NOTE_MIX, MIX, "6/C05"),
-    "C06": ("other", "Proved: all ThreeValuedTruth operations equal their Kleene tables and are monotone in the information order, for sequences of any length. Bounded: verdicts on every open prefix of enumerated closed trees never contradict the completion.", NOTE_MIX, MIX, "6/C06"),
+    "C06": ("other", "Proved: all ThreeValuedTruth operations equal their Kleene tables and are monotone in the information order, for sequences of any length; the verdict combination of evaluate_quantified_formula never gives a definite verdict that further matches could contradict; evaluate_smt_formula answers UNKNOWN whenever a free variable is unassigned or a substituted tree is open. Bounded: verdicts on every open prefix of enumerated closed trees never contradict the completion (the potential-match analysis itself is not proved).", NOTE_MIX, MIX, "6/C06"),
     "C07": ("exploration", "Bounded only: unparse/parse fix-point, equality and equal verdicts over a generated constraint family.", NOTE_BND, BND, "6/C07"),
     "C08": ("other", "Bounded: sugared constraints vs an independently written desugaring, on enumerated trees. Proved (supporting): list_set, nth_occ, is_prefix used by XPath elimination.", NOTE_MIX, MIX, "6/C08"),
     "C09": ("other", "Proved for all formulas and all assignments, over an abstract semantics of formula ASTs: Formula.__and__/__or__/__neg__ mean conjunction/disjunction/negation (n-ary, by fold invariants); six of the seven case functions of convert_to_nnf answer exactly for their formula classes and their answer means the formula (negated iff `negate`), with the dispatch chain as assumed induction hypothesis and a lemma that some case always answers. Bounded: negation, NNF, DNF, renaming, and/or on generated n-ary ASTs keep/invert the verdict and never raise (incl. the SMT-level case and DNF, which are not proved).", NOTE_MIX, MIX, "6/C09"),
@@ -23,7 +23,7 @@ CHECKS = {
     "C13": ("other", "Bounded: post-condition of insert_tree for all method subsets. Proved (supporting): is_prefix.", NOTE_MIX, MIX, "6/C13"),
     "C14": ("exploration", "Bounded only: exact length of create_fixed_length_tree, exact count and no reachable needle after count() completion.", NOTE_BND, BND, "6/C14"),
     "C15": ("other", "Proved: merge_two_intervals and the fold step of merge_intervals preserve the union and the normal form, with the induction lemmas for the fold. Bounded: numeric_intervals_from_regex vs an independent matcher; compress_concatenation_elements language equality.", NOTE_MIX, MIX, "6/C15"),
-    "C16": ("other", "Proved for all trees/paths: path helpers, list_set/list_del (whole view), nth_occ, trie key encode/decode + lemmas, the cached open-flag representation invariant through __init__, is_open and replace_path. Bounded: operation histories on trees with up to 40 children.", NOTE_MIX, MIX, "6/C16"),
+    "C16": ("other", "Proved for all trees/paths: path helpers, list_set/list_del (whole view), nth_occ, trie key encode/decode + lemmas, the cached open-flag representation invariant through __init__, is_open, is_complete and replace_path, is_valid_path == every index in range, get_subtree returns the node the path leads to. Bounded: operation histories on trees with up to 40 children (strings, search, trie views, hashes, replace).", NOTE_MIX, MIX, "6/C16"),
     "C17": ("other", "Proved on the AST: to_json/__getstate__ assign nothing reachable from their parameters. Bounded: cache/serialise histories, SMT literal pickling, CLI JSON.", NOTE_MIX, MIX, "6/C17"),
     "C18": ("other", "Proved for all inputs from the real text of ISLaSolver.check/parse/repair: check(str) is true exactly when the string is a member and its parsed tree is judged TRUE, parse raises SyntaxError exactly for non-members and SemanticError exactly for members judged FALSE, check(tree) agrees with check(str) on the parser's tree, repair returns an accepted input unchanged, no other exception escapes -- over ASSUMED contracts of EarleyParser.parse (C10) and evaluate (C03). Bounded: the same relations end-to-end and mutate/repair results against independent oracles.", NOTE_MIX, MIX, "6/C18"),
     "C19": ("exploration", "Bounded only: exit-code/output contract of cli.main over generated file sets (in-process and as subprocess).", NOTE_BND, BND, "6/C19"),
